@@ -19,7 +19,8 @@ Configs == [net : Networks, traces : Traces]
 SameNet(a, b) == a = b \/ {a, b} = {"mainnet", "bitcoin"}
 
 Cases ==
-  [kind : {"created"}, creator : Configs, opener : Configs, tamper : Tampers, fill : Fill]
+  [kind : {"created"}, creator : Configs, opener : Configs, tamper : Tampers, fill : {"empty"}]
+    \cup [kind : {"created"}, creator : Configs, opener : Configs, tamper : {"none"}, fill : {"populated"}]
     \cup [kind : {"absent", "emptydir", "foreign"}, creator : {[net |-> "regtest", traces |-> FALSE]}, opener : Configs,
           tamper : {"none"}, fill : {"empty"}]
 
